@@ -334,6 +334,26 @@ void object_arr_dim_mult(unsigned int dims, object_arr_dim * dv,
     }
 }
 
+/* the number of elements, the product of the extents, has to fit unsigned int:
+   object_arr_dim_mult would wrap ({[ 65536, 65536 ]} gets 0 elements and no
+   value array while every index up to 65535 passes object_arr_dim_addr) */
+char object_arr_dim_fits(unsigned int dims, object_arr_dim * dv)
+{
+    unsigned int d = 0;
+    unsigned long long e = 1;
+
+    for (d = 0; d < dims; d++)
+    {
+        e *= dv[d].elems;
+        if (e > 0xFFFFFFFFULL)
+        {
+            return 0;
+        }
+    }
+
+    return 1;
+}
+
 unsigned int object_arr_dim_addr(unsigned int dims, object_arr_dim * dv,
                                  object_arr_dim * addr, int * oobounds)
 {
